@@ -28,9 +28,9 @@ def log(*a):
     print(*a, file=sys.stderr, flush=True)
 
 
-def build(race=False):
+def build(prop, race=False):
     os.makedirs(BUILD, exist_ok=True)
-    out = os.path.join(BUILD, "vworker-race" if race else "vworker")
+    out = os.path.join(BUILD, f"vworker-{prop}" + ("-race" if race else ""))
     shutil.copyfile(os.path.join(REPO, "go.sum"), os.path.join(HARNESS, "go.sum"))
     modfile = []
     if REPO != "/repo":
@@ -40,7 +40,7 @@ def build(race=False):
         open(alt, "w").write(src)
         shutil.copyfile(os.path.join(HARNESS, "go.sum"), os.path.join(BUILD, "alt.go.sum"))
         modfile = ["-modfile=" + alt]
-    cmd = ["go", "build"] + modfile + ["-tags", "verif"] + (["-race"] if race else []) + ["-o", out, "./cmd/vworker"]
+    cmd = ["go", "build"] + modfile + ["-tags", "verif,p" + prop] + (["-race"] if race else []) + ["-o", out, "./cmd/vworker"]
     t0 = time.time()
     r = subprocess.run(cmd, cwd=HARNESS, env=GOENV, stdout=subprocess.PIPE, stderr=subprocess.STDOUT, text=True)
     if r.returncode != 0:
@@ -122,9 +122,13 @@ def run_shard(binary, prop, seed, tier, shard, nshards, rundir, cfg, extra_env=N
 
 
 def load_known(prop):
-    path = os.path.join(VERIF, "known_findings.jsonl")
+    paths = [os.path.join(VERIF, "known_findings.jsonl")]
+    if os.environ.get("VERIF_KNOWN_EXTRA"):  # builders' candidate lists (testing only; never used by registered commands)
+        paths.append(os.path.join(VERIF, os.environ["VERIF_KNOWN_EXTRA"]))
     entries = []
-    if os.path.exists(path):
+    for path in paths:
+        if not os.path.exists(path):
+            continue
         for line in open(path):
             line = line.strip()
             if line and not line.startswith("#"):
@@ -167,14 +171,14 @@ def main():
         replay = json.load(open(a.replay))
         a.seed, a.tier = replay["seed"], replay["tier"]
 
-    binary, err = build(race=False)
+    binary, err = build(prop, race=False)
     if binary is None:
         print(err)
         print(f"INCONCLUSIVE property={prop} reason=harness-does-not-build-against-current-tree")
         return 2
     race_binary = None
     if cfg.get("race"):
-        race_binary, err = build(race=True)
+        race_binary, err = build(prop, race=True)
         if race_binary is None:
             print(err)
             print(f"INCONCLUSIVE property={prop} reason=race-build-failed")
